@@ -94,7 +94,8 @@ def run_check(prop, rules, tier="quick", level="other", explanation="",
         except Exception:
             errors.append("%s: internal error\n%s" % (rule_id, traceback.format_exc()))
         n_exam = sum(1 for i in r.instances if i["status"] in ("ok", "violation"))
-        if not errors and n_exam < floor and not replay:
+        n_bad = sum(1 for i in r.instances if i["status"] == "violation")
+        if n_exam < floor and not replay and not n_bad:
             errors.append("%s: only %d instances matched, floor is %d (anchor moved?)"
                           % (rule_id, n_exam, floor))
         collected.append(r)
@@ -162,9 +163,9 @@ def run_check(prop, rules, tier="quick", level="other", explanation="",
         seen.add(ident)
         print("KNOWN-FINDING: property=%s %s [%s %s:%s]" % (
             prop, k["what"], inst["rule"], inst["file"], inst["function"]))
-    if errors:
-        for e in errors:
-            print("ANALYSIS-ERROR property=%s %s" % (prop, e))
+    for e in errors:
+        print("ANALYSIS-ERROR property=%s %s" % (prop, e))
+    if errors and not violations:
         return 2
     if violations:
         os.makedirs(os.path.join(VERIF, "replay"), exist_ok=True)
@@ -172,9 +173,19 @@ def run_check(prop, rules, tier="quick", level="other", explanation="",
         if not replay:
             with open(path, "w") as fd:
                 json.dump({"property": prop, "violations": violations}, fd, indent=1)
+        shown, seen_v = 0, {}
         for v in violations:
-            print("  %s %s:%s in %s: %s -- %s" % (v["rule"], v["file"], v["line"],
-                                                 v["function"], v["construct"], v["detail"]))
+            key = (v["rule"], v["file"], v["line"], v["construct"])
+            seen_v.setdefault(key, []).append(v)
+        for key, vs in seen_v.items():
+            if shown >= 60:
+                print("  ... %d more distinct violation sites (see replay file)" % (len(seen_v) - shown))
+                break
+            v = vs[0]
+            more = " [+%d more functions/units, e.g. %s]" % (len(vs) - 1, vs[-1]["function"]) if len(vs) > 1 else ""
+            print("  %s %s:%s in %s: %s -- %s%s" % (v["rule"], v["file"], v["line"],
+                                                   v["function"], v["construct"], v["detail"], more))
+            shown += 1
         print("VIOLATION property=%s replay=%s" % (prop, path))
         return 1
     print("OK property=%s rules=%d instances=%d wall=%.2fs" % (prop, len(collected), len(examined), wall))
